@@ -15,7 +15,8 @@ import os
 import vlib
 import vknown
 
-ALL_DEVS = ["EnchAlways5", "QueueDropsEnh", "TempOverride", "Mangle128", "UnspecRealign", "PipelineRejectEnh"]
+ALL_DEVS = ["EnchAlways5", "QueueDropsEnh", "TempOverride", "Mangle128", "UnspecRealign", "PipelineRejectEnh",
+            "MilterCopiesAnyCode"]
 
 MC_CFG = """SPECIFICATION Spec
 CONSTANTS
